@@ -12,7 +12,8 @@ import numpy as np
 import onnx_ir as ir
 from onnx_ir import convenience as ir_conv
 
-NAMES = [None, "", "a", "b", "w", "w_1", "val_0", "val_1", "val_2", "node_Add_0", "x", "y"]
+# the last name is a legal Python str that protobuf cannot encode: objects that keep their name in a proto reject it
+NAMES = [None, "", "a", "b", "w", "w_1", "val_0", "val_1", "val_2", "node_Add_0", "x", "y", "w_\ud800"]
 OPS = ["Add", "Mul", "Relu", "Identity", "If"]
 
 
@@ -136,7 +137,15 @@ class Universe:
 
     # -- construction -------------------------------------------------------------
     def tensor(self, k=0):
-        t = ir.Tensor(np.array([float(k), 1.0], dtype=np.float32))
+        if k % 3 == 2:
+            # a tensor that lives in a TensorProto (what every deserialized model holds): its name setter goes through
+            # protobuf and can therefore raise
+            import onnx
+            from onnx_ir import serde
+
+            t = serde.TensorProtoTensor(onnx.TensorProto(data_type=1, dims=[2], float_data=[float(k), 1.0], name="pt"))
+        else:
+            t = ir.Tensor(np.array([float(k), 1.0], dtype=np.float32))
         self.reg_tensor(t)
         return t
 
